@@ -179,9 +179,23 @@ func init() {
 		}
 		nextSeq := uint64(0)
 		var live *Stream
+		// short messages (around the header / tag lengths) get many more pseudo-random fills: whether a
+		// length check is reached depends on single decrypted header bytes
+		extraFills := c.PI("shortfills", 400)
 		for n := 0; n <= maxLen; n += step {
-			for kind := 0; kind < 3; kind++ {
+			kinds := 3
+			if n <= 64 {
+				kinds = 3 + extraFills
+			}
+			for kind := 0; kind < kinds; kind++ {
 				data := fill(kind, n)
+				if kind >= 3 {
+					x := uint64(n)*1000003 + uint64(kind)*7919 + 17
+					for i := range data {
+						x = x*6364136223846793005 + 1442695040888963407
+						data[i] = byte(x >> 33)
+					}
+				}
 				var perr any
 				err := func() (err error) {
 					defer func() { perr = recover() }()
@@ -280,6 +294,12 @@ func init() {
 		}
 		for _, m := range []string{"aes-256-gcm", "aes-128-gcm", "chacha20-poly1305", "plain"} {
 			jobs = append(jobs, vx.Job{Scenario: "mux.garbagerecord", Params: vx.P("method", m), Bound: 0, BudgetS: 100, Weight: 2})
+		}
+		jobs = append(jobs, vx.Job{Scenario: "mux.junkidle", Params: vx.P("method", "aes-256-gcm", "every", "4"), Bound: 1, BudgetS: 100, Weight: 3},
+			vx.Job{Scenario: "mux.junkidle", Params: vx.P("method", "chacha20-poly1305", "every", "9"), Bound: 1, BudgetS: 100, Weight: 3})
+		// short lengths with the step-free sweep (the big sweep may stride over them in the quick tier)
+		for _, m := range []string{"aes-256-gcm", "aes-128-gcm", "chacha20-poly1305", "plain"} {
+			jobs = append(jobs, vx.Job{Scenario: "session.garbage", Params: vx.P("method", m, "maxlen", "64", "step", "1", "shortfills", "3000"), Weight: 4})
 		}
 		jobs = append(jobs, vx.Job{Scenario: "mux.garbagerecord", Params: vx.P("method", "aes-256-gcm", "conns", "2", "pool", "recycle", "delay", "0"), Bound: 1, BudgetS: 100, Weight: 5},
 			vx.Job{Scenario: "mux.garbagerecord", Params: vx.P("method", "chacha20-poly1305", "conns", "2", "delay", "0"), Bound: 1, BudgetS: 100, Weight: 5})
